@@ -80,6 +80,26 @@ def upd {β : Type} (f : Id → β) (k : Id) (v : β) : Id → β := fun x => if
 def upd2 {β : Type} (f : Id → Id → β) (k1 k2 : Id) (v : β) : Id → Id → β :=
   fun x y => if x = k1 ∧ y = k2 then v else f x y
 
+/-- everything the state holds under the id of one reaction and under the names of its two solver variables -/
+structure RxnSlot where
+  lb : EB
+  ub : EB
+  st : Id → Rat
+  rule : Option G
+  rg : Id → Bool
+  mrCol : Id → Bool
+  grCol : Id → Bool
+  hasVf : Bool
+  hasVr : Bool
+  vlbf : EB
+  vubf : EB
+  vlbr : EB
+  vubr : EB
+  cof : Id → Rat
+  cor : Id → Rat
+  objf : Rat
+  objr : Rat
+
 /-- closures registered on the context stack, defunctionalised -/
 inductive Undo where
   | rawSetLb (r : Id) (v : EB)
@@ -90,6 +110,7 @@ inductive Undo where
   | objReset (obj : Id → Rat) (dirMax : Bool)
   | addMetsRaw (r : Id) (ps : List (Id × Rat)) (combine : Bool)     -- add_metabolites(…, reversibly=False)
   | readdRxn (r : Id) (mrCol grCol : Id → Bool)   -- undo of remove_reactions([r]): the reaction, its two variables and the back-references return
+  | putSlot (r : Id) (listed : Bool) (k : RxnSlot)   -- undo of add_reactions([new reaction]): what was held under these names before
 
 structure Sys where
   s : St
@@ -194,6 +215,44 @@ def readdRxnRaw (s : St) (r : Id) (mrCol grCol : Id → Bool) : St :=
            mr := fun m x => if x = r then mrCol m else s.mr m x,
            gr := fun g x => if x = r then grCol g else s.gr g x }
 
+/-! ### adding a new reaction (`Model.add_reactions([Reaction(r, …)])`, metabolites of the model, no rule) -/
+
+def getSlot (s : St) (r : Id) : RxnSlot :=
+  { lb := s.lb r, ub := s.ub r, st := s.st r, rule := s.rule r, rg := s.rg r, mrCol := fun m => s.mr m r, grCol := fun g => s.gr g r,
+    hasVf := s.hasV r, hasVr := s.hasV (s.rev r), vlbf := s.vlb r, vubf := s.vub r, vlbr := s.vlb (s.rev r), vubr := s.vub (s.rev r),
+    cof := fun m => s.co m r, cor := fun m => s.co m (s.rev r), objf := s.obj r, objr := s.obj (s.rev r) }
+
+def putSlot (s : St) (r : Id) (listed : Bool) (k : RxnSlot) : St :=
+  { s with
+    hasR := upd s.hasR r listed,
+    lb := upd s.lb r k.lb, ub := upd s.ub r k.ub,
+    st := fun x m => if x = r then k.st m else s.st x m,
+    rule := upd s.rule r k.rule,
+    rg := fun x g => if x = r then k.rg g else s.rg x g,
+    mr := fun m x => if x = r then k.mrCol m else s.mr m x,
+    gr := fun g x => if x = r then k.grCol g else s.gr g x,
+    hasV := upd (upd s.hasV (s.rev r) k.hasVr) r k.hasVf,
+    vlb := upd (upd s.vlb (s.rev r) k.vlbr) r k.vlbf,
+    vub := upd (upd s.vub (s.rev r) k.vubr) r k.vubf,
+    co := fun m v => if v = r then k.cof m else if v = s.rev r then k.cor m else s.co m v,
+    obj := upd (upd s.obj (s.rev r) k.objr) r k.objf }
+
+/-- the coefficient of `m` in a stoichiometry given as pairs (first entry wins; absent = 0) -/
+def stOf (ps : List (Id × Rat)) (m : Id) : Rat :=
+  match ps.find? (fun p => p.1 == m) with
+  | some p => p.2
+  | none => 0
+
+/-- the slot of a freshly built reaction: bounds, stoichiometry over metabolites of the model, no rule, two variables with the boxes of
+    `update_variable_bounds`, its column in every steady-state row, objective coefficient zero -/
+def newSlot (lb ub : EB) (ps : List (Id × Rat)) : RxnSlot :=
+  { lb := lb, ub := ub, st := stOf ps, rule := none, rg := fun _ => false, mrCol := fun m => decide (stOf ps m ≠ 0), grCol := fun _ => false,
+    hasVf := true, hasVr := true,
+    vlbf := (splitBounds lb ub).1.1, vubf := (splitBounds lb ub).1.2, vlbr := (splitBounds lb ub).2.1, vubr := (splitBounds lb ub).2.2,
+    cof := stOf ps, cor := fun m => -(stOf ps m), objf := 0, objr := 0 }
+
+def addRxnRaw (s : St) (r : Id) (lb ub : EB) (ps : List (Id × Rat)) : St := putSlot s r true (newSlot lb ub ps)
+
 /-! ### undo -/
 
 def runUndo (s : St) : Undo → Except Err St
@@ -205,6 +264,7 @@ def runUndo (s : St) : Undo → Except Err St
   | .objReset o d => .ok { s with obj := o, dirMax := d }
   | .addMetsRaw r ps combine => .ok (addMetsRaw s r ps combine)
   | .readdRxn r mrCol grCol => .ok (readdRxnRaw s r mrCol grCol)
+  | .putSlot r listed k => .ok (putSlot s r listed k)
 
 /-- `HistoryManager.reset`: newest first; an undo function that raises ends the replay -/
 def replay (s : St) : List Undo → St × Option Err
@@ -227,6 +287,7 @@ inductive Op where
   | setDir (d : DirArg)
   | addMets (r : Id) (ps : List (Id × Rat)) (combine : Bool) (neg : Bool)   -- neg = subtract_metabolites
   | removeRxn (r : Id)
+  | addRxn (r : Id) (lb ub : EB) (ps : List (Id × Rat))
   | enter
   | exit
 
@@ -309,6 +370,15 @@ def removeRxn (y : Sys) (r : Id) : Sys :=
   let y1 := if inCtx y then push y (.readdRxn r (fun m => y.s.mr m r) (fun g => y.s.gr g r)) else y
   { y1 with s := removeRxnRaw y.s r }
 
+/-- the names of a new reaction do not clash with anything in the solver (the pools of the harness guarantee it; the code would refuse) -/
+def freshNames (s : St) (r : Id) : Bool :=
+  decide (s.rev r ≠ r) && s.univR.all (fun x => !s.hasR x || (decide (s.rev x ≠ r) && decide (s.rev r ≠ x) && decide (s.rev x ≠ s.rev r)))
+
+/-- `model.add_reactions([R])` for a reaction that is new to the model -/
+def addRxn (y : Sys) (r : Id) (lb ub : EB) (ps : List (Id × Rat)) : Sys :=
+  let y1 := if inCtx y then push y (.putSlot r (y.s.hasR r) (getSlot y.s r)) else y
+  { y1 with s := addRxnRaw y.s r lb ub ps }
+
 def enter (y : Sys) : Sys := { y with ctx := [] :: y.ctx }
 
 def exit (y : Sys) : Sys × Option Err :=
@@ -330,6 +400,11 @@ def apply (y : Sys) : Op → Sys × Option Err
   | .setDir d => setDir y d
   | .addMets r ps combine neg => if y.s.hasR r then addMets y r ps combine neg else (y, some .key)
   | .removeRxn r => if y.s.hasR r then (removeRxn y r, none) else (y, some .key)
+  | .addRxn r lb ub ps =>
+    if EB.lt ub lb then (y, some .value)               -- `Reaction(…, lower_bound, upper_bound)` refuses, before the model is involved
+    else if y.s.hasR r then (y, none)                  -- an id that is taken: the reaction is ignored (a warning is logged)
+    else if decide (r ∈ y.s.univR) && freshNames y.s r && ps.all (fun p => y.s.hasM p.1 && decide (p.2 ≠ 0)) then (addRxn y r lb ub ps, none)
+    else (y, some .type)                               -- outside the modelled fragment (never sent by the harness)
   | .enter => (enter y, none)
   | .exit => exit y
 
